@@ -1127,7 +1127,17 @@ class StateEngine(object):
                 #print("Terminating branch {}".format(index))
 
                 results = branch_results["results"]
-                results[index] = TERMINATED
+                if "Index" in branch_info:
+                    results[index] = TERMINATED
+                else:
+                    """
+                    The event that re-enters a Map state using MaxConcurrency
+                    for its next batch: the iterations of that batch will now
+                    never be launched, so nothing is pending for them.
+                    """
+                    batch = iterator_range.split(":")
+                    for i in range(int(batch[0]), min(int(batch[1]), len(results))):
+                        results[i] = TERMINATED
 
                 if parent_terminated and parent_results[parent_index] is not CAUGHT:
                     # (A CAUGHT slot is left as it is: the event that continues
